@@ -238,9 +238,12 @@ theorem eval_case_congr (env : Env) (a b d : E) (h : evalCase env a = evalCase e
     eval env (.case a d) = eval env (.case b d) := by
   simp [eval, h]
 
+@[simp] theorem eval_wrapForParent (env : Env) (e : E) (p : PK) : eval env (wrapForParent e p) = eval env e := by
+  unfold wrapForParent; split <;> simp [eval]
+
 /-- the repaired loop: whatever it returns evaluates like the CASE over `reverse kept ++ rest` -/
-theorem caseLoop_sound (env : Env) (dflt : E) : ∀ (fuel : Nat) (kept : List E) (rest : E),
-    eval env (caseLoop true dflt fuel kept rest) = eval env (.case (appRev kept rest) dflt) := by
+theorem caseLoop_sound (env : Env) (p : PK) (dflt : E) : ∀ (fuel : Nat) (kept : List E) (rest : E),
+    eval env (caseLoop true p dflt fuel kept rest) = eval env (.case (appRev kept rest) dflt) := by
   intro fuel
   induction fuel with
   | zero => intro kept rest; rfl
@@ -264,7 +267,7 @@ theorem caseLoop_sound (env : Env) (dflt : E) : ∀ (fuel : Nat) (kept : List E)
             split
             · -- kept = [], tl = nil
               simp only [appRev, List.foldl] at hdrop ⊢
-              simp only [eval, evalCase, hne, if_false]
+              simp only [eval_wrapForParent, eval, evalCase, hne, if_false]
               split
               · rename_i hd; subst hd; rfl
               · rfl
